@@ -14,7 +14,7 @@ for d in $DIRS; do
   git -C "$REPO" diff --quiet || { echo "$REPO is dirty"; exit 3; }
   git -C "$REPO" apply "$(readlink -f $d/patch.diff)" || { echo "$d: patch does not apply"; fail=1; continue; }
   for id in $ids; do
-    out=$(./check $id quick 2>&1); rc=$?
+    out=$(timeout 2400 ./check $id quick 2>&1); rc=$?
     occ=$(echo "$out" | grep -o "([0-9]* occurrences)" | tr -dc '0-9\n' | paste -sd+ | bc 2>/dev/null)
     if [ $rc -eq 1 ] && echo "$out" | grep -q "^VIOLATION property=$id"; then echo "$d: caught by $id (${occ:-?} violating observations)"; else echo "$d: NOT caught by $id (rc=$rc)"; fail=1; fi
   done
